@@ -110,6 +110,8 @@ VARIANTS = {
     "v2": dict(cfg=dict(soft=2, hard=3, cool=1, slow=0, fast=3, lower=10, upper=20, up=50, effect="NoExecute")),
     "v3": dict(cfg=dict(slow=2, fast=2, lower=40, upper=60, up=100, maxAge=2), KM=1),
     "v4": dict(cfg=dict(starve=True, lower=1, upper=50, up=120)),
+    # the group starts on its bound min(max_nodes, cloud maximum): no headroom for a cloud request
+    "bound": dict(cfg=dict(max=2), AsgMax0=3),
 }
 
 
